@@ -218,13 +218,25 @@ def search_configs(tier: str) -> List[Any]:
     else:
         packs = ["base", "norm", "sym", "norm+sym", "inf1", "inf2", "inf2r", "rfac", "rfaconly", "rfac+sym", "ver:a,b", "ver:e", "sfac", "two", "noinit", "dropempty"]
         stats_list = [(), ("a",), ("a", "ab")]
-        classes = classes + [c for c in dw.start_classes("thorough") if c not in classes]
     for c in classes:
         for st in stats_list:
             for pk in packs:
                 for db in ("Forest", "ForestNR"):
                     res.append(Cfg.of(c.with_(stats=st), pk, db))
-    res += [c for c in g_lattice(tier) if c.db.startswith("Forest")]
+    if tier != "quick":
+        for c in [c for c in dw.start_classes("thorough") if c not in classes]:
+            for pk in ("base", "rfac", "inf2"):
+                for db in ("Forest", "ForestNR"):
+                    res.append(Cfg.of(c, pk, db))
+    two = 0
+    for c in g_lattice(tier):
+        if not c.db.startswith("Forest"):
+            continue
+        if len(c.grammar) == 2:  # two-nonterminal grammars: every third one
+            two += 1
+            if two % 3:
+                continue
+        res.append(c)
     return res
 
 
